@@ -3,6 +3,7 @@
 package entropy
 
 import (
+	"encoding/hex"
 	"errors"
 	"fmt"
 	"io"
@@ -42,12 +43,52 @@ type Script struct {
 	Stream []byte  `json:"-"`
 	Hex    string  `json:"stream"`
 	Events []Event `json:"events,omitempty"`
+	// Rep, when non-nil, inserts a long run of blocks at byte offset Rep.At of
+	// the stream given by Hex (kept apart so that a two-megabyte run of rejected
+	// blocks does not have to be written out in a replay file). Event offsets
+	// refer to the expanded stream.
+	Rep *Repeat `json:"repeat,omitempty"`
 	// MaxChunk > 0 cuts every fault-free read to at most MaxChunk bytes.
 	MaxChunk int `json:"max_chunk,omitempty"`
 	// Playback, when non-nil, replaces the script: the device serves exactly
 	// these reads in order (used to re-run one task alone on the bytes and
 	// failures it received in a concurrent run).
 	Playback []Rec `json:"-"`
+}
+
+// Repeat is Count blocks, cycling through Blocks (hex, 32 bytes each).
+type Repeat struct {
+	At     int      `json:"at"`
+	Blocks []string `json:"blocks"`
+	Count  int      `json:"count"`
+}
+
+// Expand builds Stream from Hex and Rep.
+func (s *Script) Expand() error {
+	base, err := hex.DecodeString(s.Hex)
+	if err != nil {
+		return err
+	}
+	if s.Rep == nil || s.Rep.Count <= 0 || len(s.Rep.Blocks) == 0 {
+		s.Stream = base
+		return nil
+	}
+	var blocks [][]byte
+	for _, b := range s.Rep.Blocks {
+		v, err := hex.DecodeString(b)
+		if err != nil {
+			return err
+		}
+		blocks = append(blocks, v)
+	}
+	at := min(max(s.Rep.At, 0), len(base))
+	out := make([]byte, 0, len(base)+32*s.Rep.Count)
+	out = append(out, base[:at]...)
+	for i := 0; i < s.Rep.Count; i++ {
+		out = append(out, blocks[i%len(blocks)]...)
+	}
+	s.Stream = append(out, base[at:]...)
+	return nil
 }
 
 // Rec is one served read.
